@@ -853,3 +853,67 @@ def arb_byte_inputs(d, rng, tier):
         for _ in range(60 if tier == "quick" else 1500):
             out.append([rng.below(256) for _ in range(rng.range(3, 18))])
     return out
+
+
+# ---------------------------------------------------------------- message corpus (C16)
+
+def gen_msg_decls(rng, tier):
+    """single-validator declarations: the constructor's verdict is the validator's verdict"""
+    decls = []
+    int_types = ["i8", "u8", "i64", "u128"] if tier == "quick" else list(INT_TYPES)
+    n = 0
+    for ty in int_types:
+        lo, hi = ity_min(ty), ity_max(ty)
+        bvals = [b for b in (-5, 0, 7, 100, lo + 1, hi - 1) if lo <= b <= hi]
+        for kind in LOWER + UPPER:
+            for bi, b in enumerate(bvals):
+                env = []
+                e = spell_int(ty, b, ["lit", "const", "paren"][(bi + n) % 3], env, "b")
+                d = Decl("mi%d" % n, ty, attr([block("validate", [[tid(kind), EQ, tx(e)]]),
+                                               derive_block(["Debug", "FromStr"])]), env=env,
+                         name=["T", "Amount", "Px"][n % 3], tags={"msg", "int"})
+                d.bounds = [b]
+                d.vkind = kind
+                d.default_arg = None
+                decls.append(d)
+                n += 1
+    n = 0
+    for ty in ("f32", "f64"):
+        is64 = FLOAT_TYPES[ty]
+        for kind in LOWER + UPPER:
+            for bi, bt in enumerate(["-5.5", "0.0", "64.0", "1e30", "-0.0", "0.1"]):
+                env = []
+                e = spell_float(ty, bt, ["lit", "const"][(bi + n) % 2], env, "b")
+                d = Decl("mf%d" % n, ty, attr([block("validate", [[tid(kind), EQ, tx(e)]]),
+                                               derive_block(["Debug", "FromStr"])]), env=env,
+                         name=["T", "Dist"][n % 2], tags={"msg", "float"})
+                d.bounds = [fbits(bt, is64)]
+                d.vkind = kind
+                d.default_arg = None
+                decls.append(d)
+                n += 1
+    n = 0
+    for kind in ("len_char_min", "len_char_max"):
+        for b in (0, 1, 3, 5):
+            for sty in ("lit", "const"):
+                env = []
+                e = spell_int("usize", b, sty, env, "b")
+                d = Decl("ms%d" % n, "String", attr([block("validate", [[tid(kind), EQ, tx(e)]]),
+                                                     derive_block(["Debug", "FromStr"])]), env=env,
+                         name=["T", "Name"][n % 2], tags={"msg", "str"})
+                d.bounds = [b]
+                d.vkind = kind
+                d.default_arg = None
+                decls.append(d)
+                n += 1
+    # other variants: the sentence has no bound
+    for j, (inner, item) in enumerate([("String", [tid("not_empty")]), ("String", [tid("predicate"), EQ, tfn(0, "p", "p")]),
+                                       ("String", [tid("regex"), EQ, tstr(REGEX_LITS[0])]), ("f64", [tid("finite")]),
+                                       ("i32", [tid("predicate"), EQ, tfn(0, "p", "p")]),
+                                       ("f32", [tid("predicate"), EQ, tfn(0, "p", "p")]),
+                                       ("Vec<i32>", [tid("predicate"), EQ, tfn(0, "p", "p")])]):
+        d = Decl("mo%d" % j, inner, attr([block("validate", [item]), derive_block(["Debug"])]), tags={"msg", "other"})
+        d.vkind = item[0][1]
+        d.default_arg = None
+        decls.append(d)
+    return decls
